@@ -5,7 +5,7 @@ use crate::refm::ref_member;
 use crate::sqlgen::{queries, queries_plus, GenQuery, Order};
 use crate::sqlite::{same_multiset, same_sequence, Cell, Engine, Table};
 use crate::world::{show_db, Db, World};
-use qrlew::builder::With;
+use qrlew::builder::{Ready, With, WithIterator};
 use qrlew::data_type::{value::Value, DataType, DataTyped};
 use qrlew::hierarchy::Hierarchy;
 use qrlew::relation::{Constraint, Relation, Variant as _};
@@ -349,8 +349,11 @@ pub fn run_sql_check(ctx: &Ctx, which: Which) -> Report {
     if which == Which::C14 && (ctx.replay.is_none() || ctx.wants("values-lists")) {
         c14_values(&mut head);
     }
+    if which == Which::C07 && (ctx.replay.is_none() || ctx.wants("builder-set")) {
+        c07_builder_sets(ctx, &mut head);
+    }
     head.rule = match which {
-        Which::C07 => "E-sql queries x all database instances of the tables they read (<= N rows in total, cells from 2-3 value domains incl. NULL and range boundaries, unique columns honoured), tables declared with interval sizes and with the exact instance sizes; oracle: every cell returned by SQLite for the original query is a reference member of the declared column type (NULL iff optional) and the row count lies in the declared size. non-trivial = (query, database) pairs returning at least one row",
+        Which::C07 => "E-sql queries x all database instances of the tables they read (<= N rows in total, cells from 2-3 value domains incl. NULL and range boundaries, unique columns honoured), tables declared with interval sizes and with the exact instance sizes; oracle: every cell returned by SQLite for the original query is a reference member of the declared column type (NULL iff optional) and the row count lies in the declared size; plus Set relations built with the builder directly over tables of exact size (operands the SQL reader never produces: positive minimum size) x 3 operators x 3 quantifiers x every instance of the table, row count by a multiset reference. non-trivial = (query, database) pairs returning at least one row",
         Which::C08 => "E-sql queries x all database instances (as C07); oracle: SQLite result of the original text vs of the rendered text on the same connection: equal multisets, equal sequences under a total ORDER BY, equal column count, equal names where SQL defines them; LIMIT without total order compared by cardinality and inclusion in the un-limited result. non-trivial = pairs returning at least one row",
         Which::C14 => "E-sql queries x all database instances honouring the base-table unique columns; oracle: for every output field flagged UNIQUE / PRIMARY KEY the non-null executed values are pairwise distinct. non-trivial = pairs returning at least one row",
     }
@@ -361,6 +364,88 @@ pub fn run_sql_check(ctx: &Ctx, which: Which) -> Report {
         "a panic while compiling a query is counted as rejected and left to C18".into(),
     ];
     head
+}
+
+/// Set relations built directly over base tables (the SQL reader wraps every operand in a Map, whose
+/// declared minimum size is 0: a size rule that uses the minimum of an operand is only exercised this way).
+/// operands: the table with its exact size, and a LIMIT 1 Map over it (every choice of the row kept);
+/// reference: multiset semantics of UNION / EXCEPT / INTERSECT [ALL] computed on the instance.
+fn c07_builder_sets(ctx: &Ctx, r: &mut Report) {
+    use qrlew::relation::{SetOperator, SetQuantifier};
+    let world = World::standard();
+    let n = ctx.tier.pick(3, 4);
+    let key = |row: &Vec<Cell>| row.iter().map(|c| c.show()).collect::<Vec<_>>().join("|");
+    for t in world.tables.iter() {
+        for db in world.databases(&[t.name], n) {
+            let rows = db.get(t.name).cloned().unwrap_or_default();
+            let exact = world.relations_exact(&db);
+            let table: Arc<Relation> = exact.get(&[t.name.to_string()]).expect("table").clone();
+            let limited: Relation = Relation::map().with_iter(table.schema().iter().map(|f| (f.name().to_string(), qrlew::expr::Expr::col(f.name())))).limit(1).input(table.as_ref().clone()).build();
+            // the possible contents of the LIMIT 1 operand: each distinct row alone (nothing when the table is empty)
+            let mut singles: Vec<Vec<Vec<Cell>>> = vec![];
+            for row in &rows {
+                if !singles.iter().any(|s| key(&s[0]) == key(row)) {
+                    singles.push(vec![row.clone()]);
+                }
+            }
+            if singles.is_empty() {
+                singles.push(vec![]);
+            }
+            let operands: Vec<(&str, Relation, Vec<Vec<Vec<Cell>>>)> = vec![("table", table.as_ref().clone(), vec![rows.clone()]), ("limit1", limited, singles)];
+            for (ln, lrel, linst) in &operands {
+                for (rn, rrel, rinst) in &operands {
+                    for (on, op) in [("UNION", SetOperator::Union), ("EXCEPT", SetOperator::Except), ("INTERSECT", SetOperator::Intersect)] {
+                        for (qn, q) in [("", SetQuantifier::None), (" ALL", SetQuantifier::All), (" DISTINCT", SetQuantifier::Distinct)] {
+                            let case = format!("builder-set {ln}({}) {on}{qn} {rn}({})", t.name, t.name);
+                            let built = guarded(|| Relation::set().operator(op.clone()).quantifier(q.clone()).left(lrel.clone()).right(rrel.clone()).build());
+                            let rel: Relation = match built {
+                                Ok(x) => x,
+                                Err(_) => {
+                                    r.add_count("builder_sets_panicked(left to C18)", 1);
+                                    continue;
+                                }
+                            };
+                            let size: Vec<[i64; 2]> = rel.size().iter().cloned().collect();
+                            for l in linst {
+                                for rr in rinst {
+                                    r.evaluations += 1;
+                                    let mut cl: BTreeMap<String, i64> = BTreeMap::new();
+                                    let mut cr: BTreeMap<String, i64> = BTreeMap::new();
+                                    for x in l {
+                                        *cl.entry(key(x)).or_insert(0) += 1;
+                                    }
+                                    for x in rr {
+                                        *cr.entry(key(x)).or_insert(0) += 1;
+                                    }
+                                    let all = qn == " ALL";
+                                    let count: i64 = match (on, all) {
+                                        ("UNION", true) => (l.len() + rr.len()) as i64,
+                                        ("UNION", false) => cl.keys().chain(cr.keys()).collect::<std::collections::BTreeSet<_>>().len() as i64,
+                                        ("EXCEPT", true) => cl.iter().map(|(k, c)| (c - cr.get(k).copied().unwrap_or(0)).max(0)).sum(),
+                                        ("EXCEPT", false) => cl.keys().filter(|k| !cr.contains_key(*k)).count() as i64,
+                                        ("INTERSECT", true) => cl.iter().map(|(k, c)| (*c).min(cr.get(k).copied().unwrap_or(0))).sum(),
+                                        _ => cl.keys().filter(|k| cr.contains_key(*k)).count() as i64,
+                                    };
+                                    if count > 0 {
+                                        r.distinct_nontrivial += 1;
+                                    }
+                                    r.add_count("builder_set_cases", 1);
+                                    if !size.iter().any(|[a, b]| *a <= count && count <= *b) {
+                                        let kind = if size.iter().all(|[_, b]| count > *b) { "above-max" } else { "below-min" };
+                                        r.violation(
+                                            format!("size {kind} node=set builder {on}{qn} {ln}/{rn}"),
+                                            &case,
+                                            json!({"relation": case, "declared_size": format!("{:?}", size), "rows": count, "left_rows": l.iter().map(key).collect::<Vec<_>>(), "right_rows": rr.iter().map(key).collect::<Vec<_>>(), "database": show_db(&db)}),
+                                        );
+                                    }
+                                }
+                            }
+                        }
+                    }
+                }
+            }
+        }
+    }
 }
 
 // ---------------------------------------------------------------------------------------
@@ -614,6 +699,14 @@ pub fn c15b(ctx: &Ctx, r: &mut Report) {
         }
         qs.push((format!("SELECT age FROM users {j} orders{on} ORDER BY id"), vec!["users", "orders"]));
         qs.push((format!("SELECT count(*) AS c FROM users {j} orders{on} GROUP BY id"), vec!["users", "orders"]));
+        // the same names written in another case: unquoted identifiers are folded, so they clash all the same
+        // (seed C15-5: a case-folded retry bound the name to the first column whose last component matched)
+        for sel in ["ID", "Id, amount", "AGE, Id + 1 AS x", "count(ID) AS c", "Amount AS amount"] {
+            qs.push((format!("SELECT {sel} FROM users {j} orders{on}"), vec!["users", "orders"]));
+        }
+        qs.push((format!("SELECT age FROM users {j} orders{on} WHERE ID = 1"), vec!["users", "orders"]));
+        qs.push((format!("SELECT age FROM users {j} orders{on} ORDER BY Id"), vec!["users", "orders"]));
+        qs.push((format!("SELECT count(*) AS c FROM users {j} orders{on} GROUP BY ID"), vec!["users", "orders"]));
     }
     for j in ["JOIN", "LEFT JOIN"] {
         // self joins and aliases
